@@ -48,7 +48,10 @@ def run_tlc(module, cfg, pid, tag, workers=4, timeout=900, simulate=None, seed=N
     wd = workdir(pid, "tlc_" + tag)
     meta = os.path.join(wd, "meta")
     shutil.rmtree(meta, ignore_errors=True)
-    cmd = ["java", "-XX:+UseParallelGC", "-Xmx" + heap, "-Xss64m"]
+    jtmp = os.path.join(wd, "jtmp")       # TLC unpacks its standard modules into java.io.tmpdir: keep that out of /tmp
+    shutil.rmtree(jtmp, ignore_errors=True)
+    os.makedirs(jtmp)
+    cmd = ["java", "-XX:+UseParallelGC", "-Xmx" + heap, "-Xss64m", "-Djava.io.tmpdir=" + jtmp]
     if extra_java:
         cmd += extra_java
     cmd += ["-cp", JAR, "tlc2.TLC", "-workers", str(workers), "-metadir", meta, "-cleanup",
@@ -74,6 +77,7 @@ def run_tlc(module, cfg, pid, tag, workers=4, timeout=900, simulate=None, seed=N
                 raise ToolError("TLC timed out on %s/%s" % (module, cfg))
     wall = time.time() - t0
     shutil.rmtree(meta, ignore_errors=True)
+    shutil.rmtree(jtmp, ignore_errors=True)
     cases, other = [], []
     seen = set()
     with open(out_path) as f:
